@@ -131,8 +131,10 @@ class _PackInterp(BufInterp):
 
 
 def _pack_obj(repo, cname, limit, total):
+    from ..absbase import FinamInterp, seed_from_init
     c = repo.cls(cname)
     o = Obj(cls=c, label=cname)
+    seed_from_init(FinamInterp(repo), c, o, {"name": cname, "info": None, "static": False})
     o.fields.update(_mem_limit=limit, _mem_location=Sym("location"), _total_mem=total, _mem_counter=Sym("counter0"),
                     logger=Logger(label="logger"), name=cname, data=[],
                     _output_info=Obj(label="out_info", fields={"units": Sym("u_out")}),
